@@ -194,7 +194,7 @@ func checkC08(cx *Ctx, r *Report) {
 					isEF := false
 					for _, ref := range nonDebugRefs(cs) {
 						if st, ok := ref.(*ssa.Store); ok {
-							if fa, ok := st.Addr.(*ssa.FieldAddr); ok && fieldVar(fa.X.Type(), fa.Field).Name() == "ErrorFunc" {
+							if fa, ok := st.Addr.(*ssa.FieldAddr); ok && fname(fieldVar(fa.X.Type(), fa.Field)) == "ErrorFunc" {
 								isEF = true
 							}
 						}
